@@ -138,3 +138,52 @@ type (
 	nullString = null.String
 	nullTime   = null.Time
 )
+
+// mutateInPlace changes the scalars and strings of v where they are: the variable, its nested structs
+// and the backing arrays of its slices keep their addresses and lengths. Used to find state that a
+// codec keeps about a value between calls (size caches keyed by address and the like).
+func mutateInPlace(v reflect.Value, vg *gen.VG, depth int) {
+	if depth > 8 {
+		return
+	}
+	t := v.Type()
+	if t == model.TimeT || t.PkgPath() == model.NullIntT.PkgPath() {
+		if v.CanSet() {
+			v.Set(vg.Value(t, ""))
+		}
+		return
+	}
+	switch v.Kind() {
+	case reflect.Ptr:
+		if !v.IsNil() {
+			mutateInPlace(v.Elem(), vg, depth+1)
+		}
+	case reflect.Struct:
+		for _, f := range model.Fields(t) {
+			fv := v.Field(f.GoIndex)
+			switch fv.Kind() {
+			case reflect.Ptr, reflect.Struct, reflect.Slice:
+				mutateInPlace(fv, vg, depth+1)
+			case reflect.Map, reflect.Interface:
+			default:
+				if fv.CanSet() {
+					fv.Set(vg.Value(fv.Type(), f.Opt))
+				}
+			}
+		}
+	case reflect.Slice:
+		if t.Elem().Kind() == reflect.Interface {
+			return
+		}
+		for i := 0; i < v.Len(); i++ {
+			e := v.Index(i)
+			switch e.Kind() {
+			case reflect.Ptr, reflect.Struct, reflect.Slice:
+				mutateInPlace(e, vg, depth+1)
+			case reflect.Map, reflect.Interface:
+			default:
+				e.Set(vg.Value(e.Type(), ""))
+			}
+		}
+	}
+}
